@@ -188,5 +188,6 @@ int main(int argc, char **argv) {
   for (auto &kv : stats) { fprintf(o, "{\"type\":\"fn\",\"fn\":"); js(fname(kv.first)); fprintf(o, ",\"calls\":%ld,\"value\":%ld,\"invalid_argument\":%ld,\"bad_alloc\":%ld,\"runtime_error\":%ld,\"other\":%ld}\n", kv.second.calls, kv.second.exc[0], kv.second.exc[1], kv.second.exc[2], kv.second.exc[3], kv.second.exc[4]); }
   fprintf(o, "{\"type\":\"summary\",\"requests\":%ld,\"skipped\":%ld,\"leakchecks\":%ld,\"asan\":%d}\n", n, skipped, leakchecks, XV_ASAN);
   fclose(o);
+  free(rq); free(sbuf); free(g_str);
   return 0;
 }
